@@ -33,7 +33,8 @@ Shapes == {"file", "flat", "nested", "links", "modes", "names"}
 \* (the pipeline then ends with CopyGraph: there is no manifest left to tag)
 Opts == [reproducible : BOOLEAN, preserve : BOOLEAN, skipunpack : BOOLEAN, forcecas : BOOLEAN, ignorenoname : BOOLEAN]
 \* remote: a Repository over the reference registry model (regfake, all capabilities on)
-Inter == {"memory", "oci", "file", "remote"}
+\* remotemin: the same over a registry without digest headers, Referrers API, range requests and mounting
+Inter == {"memory", "oci", "file", "remote", "remotemin"}
 CaseSpace == [shape : Shapes, opts : Opts, inter : Inter]
 
 VARIABLE c
